@@ -443,7 +443,7 @@ func mutate(rg *rng, src string) (string, string) {
 				}
 			}
 			if len(c) > 0 {
-				return replaceUse(src, c[rg.intn(len(c))], rg.pick([]string{"$9", "$nosuchgroup"})), "undefCapref"
+				return replaceUse(src, c[rg.intn(len(c))], rg.pick([]string{"$99", "$nosuchgroup"})), "undefCapref"
 			}
 		case 2:
 			return insertAt(rg, src, "@nosuchdeco {\n/zz/ {\n}\n}"), "undefDeco"
@@ -468,7 +468,16 @@ func mutate(rg *rng, src string) (string, string) {
 		case 5: // redeclared name
 			if len(decls) > 0 {
 				d := decls[rg.intn(len(decls))]
-				return d.kind + " " + d.name + d.rest + "\n" + src, "redeclMetric"
+				// the same name declared first as a metric, as a pattern constant or as a decorator:
+				// one name space, whatever the kind
+				switch rg.intn(3) {
+				case 0:
+					return d.kind + " " + d.name + d.rest + "\n" + src, "redeclMetric"
+				case 1:
+					return "const " + d.name + " /zz/\n" + src, "redeclMetric"
+				default:
+					return "def " + d.name + " {\n  /zz/ {\n    next\n  }\n}\n" + src, "redeclMetric"
+				}
 			}
 		case 6: // unused declaration
 			return insertAt(rg, src, rg.pick([]string{"counter zz_unused", "gauge zz_unused by k", "text zz_unused", "const ZZ_UNUSED /zz/"})), rg.pick([]string{"unused"})
